@@ -95,7 +95,10 @@ func init() {
 	boundedChecks["C07"] = append(boundedChecks["C07"], func(w *World, tier string, seed int, verif string) []boundedResult {
 		return []boundedResult{runHarness(w, verif, tier, seed, harnessSpec{
 			name: "corrupted-responses", pkg: "dig", pkgName: "dig", dir: "plan", files: []string{"plan_bounded_test.go", "corrupt_bounded_test.go"}, run: "TestVerifCorruptBounded",
-			bound: "10 data plans (headers, blocks, receipts, logs, traces and combinations) x ranges 1..3 x single corruptions per RPC method (reorder, duplicate, drop, null result, error member, HTTP 500, truncated body, renumbered block, broken parent hash, receipt naming another block, log out of range) against the real jrpc2.Client.Get + row builder: either an error, or complete and correctly placed data",
+			bound: "11 data plans (headers, blocks, receipts, logs, traces and combinations) x ranges 1..3 x single corruptions per RPC method (reorder, duplicate, drop, null result, error member, HTTP 500, HTTP 404/301 with a well-formed body, truncated body, renumbered block, broken parent hash, receipt naming another block, log out of range, logs naming another fork's block hash) against the real jrpc2.Client.Get + row builder: either an error, or complete and correctly placed data; a non-2xx status must always be an error",
+		}), runHarness(w, verif, tier, seed, harnessSpec{
+			name: "null-head-poll", pkg: "dig", pkgName: "dig", dir: "plan", files: []string{"nullhead_bounded_test.go"}, run: "TestVerifNullHeadBounded",
+			bound: "a node answering the head and hash requests with a null result, a missing result or an error member: Client.Latest, Client.Hash and the background poller started by Latest (5 ms period, several rounds) must report errors; a crash of the poller fails the stand-in",
 		})}
 	})
 	boundedChecks["C13"] = append(boundedChecks["C13"], func(w *World, tier string, seed int, verif string) []boundedResult {
@@ -120,6 +123,18 @@ func init() {
 		}), runHarness(w, verif, tier, seed, harnessSpec{
 			name: "selected-vs-spec", pkg: "dig", pkgName: "dig", dir: "sel", files: []string{"sel_bounded_test.go"}, run: "TestVerifSelectedBounded",
 			bound: "real Input.Selected / Event.Selected vs an independent specification for all input trees of depth <= 2 with <= 2 components per node, every selection/indexed pattern (second component thinned to a third at the top level), and a thinned set of two-input events",
+		})}
+	})
+	boundedChecks["C15"] = append(boundedChecks["C15"], func(w *World, tier string, seed int, verif string) []boundedResult {
+		return []boundedResult{runHarness(w, verif, tier, seed, harnessSpec{
+			name: "config-strings-vs-sql-text", pkg: "shovel/config", pkgName: "config", dir: "sqlsafe", files: []string{"sqlsafe_bounded_test.go"}, run: "TestVerifSQLSafeBounded",
+			bound: "every string-valued position of a two-integration configuration tree (found by reflection: names, table, columns, types, unique/index lists, notification columns, nested event components with filter references, block fields, sources) x 4 hostile strings x {file path = ValidateFix, dashboard path = CheckUserInput alone}; for each accepted configuration the real DDL, Migrate, dig.New, Integration.Insert (filter references, notifications) and Delete run against a recording connection: the marker must not occur in any SQL text; chain data carrying the marker must not occur either",
+		})}
+	})
+	boundedChecks["C12"] = append(boundedChecks["C12"], func(w *World, tier string, seed int, verif string) []boundedResult {
+		return []boundedResult{runHarness(w, verif, tier, seed, harnessSpec{
+			name: "pushdown-loses-nothing", pkg: "dig", pkgName: "dig", dir: "plan", files: []string{"plan_bounded_test.go", "pushdown_bounded_test.go"}, run: "TestVerifPushdownBounded",
+			bound: "log_addr filter with 4 operators (contains, !contains, eq, ne) x 6 argument sets (either token, both, an unknown address, a 10-byte fragment, upper-case hex) x aggregation and/or/default x 4 second filters on the event value (none, eq matching either transaction, ne), through the real dig.New -> Filter -> jrpc2.Client.Get -> Insert over 2 blocks x 2 transactions with logs from two contracts, once with the scripted node applying the eth_getLogs address restriction and once ignoring it: the stored rows must be equal",
 		})}
 	})
 	boundedChecks["C09"] = append(boundedChecks["C09"], func(w *World, tier string, seed int, verif string) []boundedResult {
